@@ -5,7 +5,8 @@
 (* real exporters / SDK components by harness/c20.                             *)
 EXTENDS ConfigPrecedence, Json
 
-Families == @FAMILIES@     \* subset of {"endpoint","headers","compression","timeout","sdk","limits","sampler"}
+Families == @FAMILIES@     \* subset of {"endpoint","headers","compression","timeout","sdk","limits","sampler","structs","cross"}
+StructMode == @STRUCTMODE@ \* "full": every combination of field classes; "star": uniform structs with one field varied
 Exporters == @EXPORTERS@   \* subset of the six OTLP exporters
 
 (* ---- source domains ---- *)
@@ -25,7 +26,9 @@ HdrOpt     == {Absent, Valid("mO"), Valid("none")}          \* "none" = explicit
 CmpEnv == {Absent, Valid("gzip"), Valid("none"), Bad("unknown"), Src("case", "gzip")}
 CmpOpt(comp) == {Absent, Valid("gzip"), Valid("none")} \cup (IF IsHTTP(comp) THEN {Bad("badenum")} ELSE {Bad("unknown")})
 
-Case(fam, comp, setting, srcs) == [fam |-> fam, comp |-> comp, setting |-> setting, srcs |-> srcs]
+NoCtx == [kind |-> "none", fields |-> <<>>, env |-> Absent]
+CaseX(fam, comp, setting, srcs, ctx) == [fam |-> fam, comp |-> comp, setting |-> setting, srcs |-> srcs, ctx |-> ctx]
+Case(fam, comp, setting, srcs) == CaseX(fam, comp, setting, srcs, NoCtx)
 
 EndpointCases ==
   {Case("endpoint", c, "endpoint", <<o, s, g>>) :
@@ -52,8 +55,56 @@ SamplerCases ==
                                                   Src("case", "traceidratio")},
      a \in {Absent, Valid("R25"), Valid("R0"), Bad("nonnum"), Bad("neg"), Bad("gt1"), Bad("empty")}}
 
+(* ---- struct-valued options: every field is provided by the option, also zero-valued fields ----
+   One case per (option kind, struct, environment, OBSERVED field): the harness passes the literal
+   struct (all fields), sets the field-specific variable of every field as `env` says, and observes
+   the field named by `setting`; ctx carries the whole struct.  A field whose carrier is disabled by
+   the struct itself (attribute value length without attributes, per-event attributes without events,
+   per-link attributes without links) cannot be observed and is not enumerated. *)
+FieldClasses == {"zero", "neg", "valid"}
+SpanFields == <<"span.attr_count", "span.attr_len", "span.event_count", "span.link_count",
+                "span.event_attr_count", "span.link_attr_count">>
+LogFields == <<"logrecord.attr_count", "logrecord.attr_len">>
+Uniform(n, c) == [i \in 1..n |-> c]
+StructsOf(n) ==
+  IF StructMode = "full" THEN [1..n -> FieldClasses]
+  ELSE {[Uniform(n, base) EXCEPT ![f] = c] : base \in FieldClasses, f \in 1..n, c \in FieldClasses}
+OptSrc(kind, cls) ==
+  IF cls = "valid" THEN Valid("O") ELSE IF kind = "nonraw" THEN Bad("nr" \o cls)
+  ELSE IF cls = "neg" THEN Bad("rawneg") ELSE Bad(cls)
+StructEnv == {Absent, Valid("S"), Bad("nonnum")}
+Carrier(fields, f) ==   \* index of the field that must not be disabled for field f to be observable (0: none)
+  CASE fields[f] = "span.attr_len" -> 1 [] fields[f] = "span.event_attr_count" -> 3
+    [] fields[f] = "span.link_attr_count" -> 4 [] fields[f] = "logrecord.attr_len" -> 1 [] OTHER -> 0
+Observable(kind, fields, fs, f) ==
+  Carrier(fields, f) = 0 \/ kind = "nonraw" \/ fs[Carrier(fields, f)] # "zero"
+StructSrcs(setting, o, e) == IF setting \in Limits3 THEN <<o, e, Absent>> ELSE <<o, e>>
+StructCasesOf(kind, fields) ==
+  {CaseX("scalar", "sdk", fields[t[3]], StructSrcs(fields[t[3]], OptSrc(kind, t[1][t[3]]), t[2]),
+         [kind |-> kind, fields |-> t[1], env |-> t[2]]) :
+     t \in {u \in StructsOf(Len(fields)) \X StructEnv \X (1..Len(fields)) : Observable(kind, fields, u[1], u[3])}}
+StructCases == StructCasesOf("raw", SpanFields) \cup StructCasesOf("nonraw", SpanFields) \cup StructCasesOf("logopts", LogFields)
+
+(* ---- cross-setting configurations of the batch processors (variables only) ----
+   <<queue, batch, export timeout, schedule delay>>; value ids A (small) / B (large).  Enumerated: the
+   full queue x batch grid, an ill-formed duration next to valid/absent sizes and the other duration,
+   an ill-formed size next to a valid export timeout.  The edge carries the normalized configuration
+   the harness has to execute as the reference. *)
+SizeIll == {Bad("nonnum"), Bad("neg"), Bad("zero"), Bad("float"), Bad("overflow")}
+DurIll == {Bad("nonnum"), Bad("neg"), Bad("float"), Bad("overflow")}
+SizeEnv == {Absent, Valid("A"), Valid("B")} \cup SizeIll
+CrossCfgs ==
+  {<<q, b, Absent, Absent>> : q \in SizeEnv, b \in SizeEnv}
+  \cup {<<q, b, t, d>> : q \in {Absent, Valid("A")}, b \in {Absent, Valid("A")}, t \in DurIll, d \in {Absent, Valid("A")}}
+  \cup {<<q, b, t, d>> : q \in {Absent, Valid("A")}, b \in {Absent, Valid("A")}, t \in {Absent, Valid("A")}, d \in DurIll}
+  \cup {<<q, b, Valid("A"), Absent>> : q \in SizeIll, b \in {Absent, Valid("A")}}
+  \cup {<<q, b, Valid("A"), Absent>> : q \in {Absent, Valid("A")}, b \in SizeIll}
+CrossCases == {Case("cross", p, "cross", c) : p \in {"bsp", "blrp"}, c \in CrossCfgs}
+
 Cases ==
-  (IF "endpoint" \in Families THEN EndpointCases ELSE {})
+  (IF "structs" \in Families THEN StructCases ELSE {})
+  \cup (IF "cross" \in Families THEN CrossCases ELSE {})
+  \cup (IF "endpoint" \in Families THEN EndpointCases ELSE {})
   \cup (IF "headers" \in Families THEN HeaderCases ELSE {})
   \cup (IF "compression" \in Families THEN CompressionCases ELSE {})
   \cup (IF "timeout" \in Families THEN TimeoutCases ELSE {})
@@ -64,15 +115,16 @@ Cases ==
 (* ---- state machine: unconfigured --Configure(case)--> configured ---- *)
 VARIABLES st, act
 vars == <<st, act>>
-Unconfigured == [phase |-> "unconfigured", allowed |-> {}, ideal |-> {}]
+Unconfigured == [phase |-> "unconfigured", allowed |-> {}, ideal |-> {}, norm |-> <<>>]
 Init == st = Unconfigured /\ act = [fam |-> "init"]
-Configure(c) == /\ st.phase = "unconfigured"
-                /\ st' = [phase |-> "configured", allowed |-> AllowedFor(c), ideal |-> IdealFor(c)]
+Configure(c) == /\ st' = (IF c.fam = "cross"
+                           THEN [phase |-> "configured", allowed |-> {}, ideal |-> {}, norm |-> NormalizeCross(c.srcs)]
+                           ELSE [phase |-> "configured", allowed |-> AllowedFor(c), ideal |-> IdealFor(c), norm |-> <<>>])
                 /\ act' = c
-Next == \E c \in Cases : Configure(c)
+Next == st.phase = "unconfigured" /\ \E c \in Cases : Configure(c)
 Spec == Init /\ [][Next]_vars
 View == <<st, act>>     \* one state per case (act is part of the view on purpose)
-EmitEdge == PrintT("EDGE " \o ToJson([from |-> st.phase, act |-> act', to |-> [allowed |-> st'.allowed, ideal |-> st'.ideal]]))
+EmitEdge == PrintT("EDGE " \o ToJson([from |-> st.phase, act |-> act', to |-> [allowed |-> st'.allowed, ideal |-> st'.ideal, norm |-> st'.norm]]))
 
 (* ---- the statement as invariants over every enumerated case ---- *)
 HighestValid(c) ==   \* index of the first non-absent source if it is valid, else 0
@@ -82,7 +134,7 @@ HighestValid(c) ==   \* index of the first non-absent source if it is valid, els
        IF c.fam = "scalar" /\ IsValid(TypeOf(c.setting), c.srcs[i]) THEN i ELSE 0
 
 Inv ==
-  st.phase = "configured" =>
+  st.phase = "configured" /\ act.fam # "cross" =>
     /\ st.allowed # {}                           \* some outcome is always admissible
     /\ st.ideal \subseteq st.allowed             \* the ideal resolution is admissible
     /\ st.ideal # {}
@@ -97,6 +149,27 @@ Inv ==
           /\ ~GenericOptional(act.setting) => Cardinality(st.allowed) = 1)
     /\ (act.fam = "endpoint" /\ (\A i \in 1..3 : act.srcs[i].k \notin IllFormedURL)
           => Cardinality({r.who : r \in EndpointAllowed(act.comp, act.srcs)}) = 1)
+
+(* struct-valued options: the option decides every field alone, whatever the environment says *)
+StructInv ==
+  st.phase = "configured" /\ act.ctx.kind # "none" =>
+    /\ Cardinality(st.allowed) = 1
+    /\ st.allowed = AllowedFor([act EXCEPT !.srcs = [act.srcs EXCEPT ![2] = Absent]])
+    /\ (act.ctx.kind = "nonraw" /\ act.srcs[1].k # "valid" => st.allowed = {DefaultOf(act.setting)})
+    /\ (act.ctx.kind # "nonraw" /\ act.srcs[1].k = "zero" => st.allowed = {"Z"})
+    /\ (act.ctx.kind # "nonraw" /\ act.srcs[1].k = "rawneg" => st.allowed = {"U"})
+
+(* cross-setting clause on the model: for the variables of the batch processors (option absent) an
+   ill-formed value without a documented meaning is indistinguishable from an absent one, normalization
+   is idempotent and keeps every well-formed source *)
+BatchSetting == <<"bsp.queue", "bsp.batch", "bsp.timeout", "bsp.delay">>
+CrossInv ==
+  st.phase = "configured" /\ act.fam = "cross" =>
+    /\ NormalizeCross(st.norm) = st.norm
+    /\ \A i \in 1..4 :
+         /\ Allowed(CrossTypes[i], <<Absent, act.srcs[i]>>, DefaultOf(BatchSetting[i]))
+              = Allowed(CrossTypes[i], <<Absent, st.norm[i]>>, DefaultOf(BatchSetting[i]))
+         /\ (st.norm[i] # act.srcs[i] => st.norm[i] = Absent /\ ~IsValid(CrossTypes[i], act.srcs[i]))
 
 (* precedence is monotone: making a lower-precedence source absent never adds outcomes when the
    sources above it contain a well-formed value (checked for every enumerated scalar case) *)
